@@ -23,6 +23,22 @@ Theorem C13_custom_timeout_is_timelimit : forall r : raw,
 Proof. exact custom_timeout_is_timelimit. Qed.
 Print Assumptions C13_custom_timeout_is_timelimit.
 
+(* one SolverWrapper object, optimised repeatedly (model changed in between), on either route of optimize() *)
+Theorem C13_status_is_last_run : forall rt st xs x,
+  sw_status (sw_runs rt st (xs ++ [x])) = Some (status_of (outcome_of rt x)).
+Proof. exact sw_status_is_last_run. Qed.
+Print Assumptions C13_status_is_last_run.
+
+Theorem C13_alarm_route_timelimit : forall st xs x,
+  run_alarm x = true -> sw_status (sw_runs WithAlarm st (xs ++ [x])) = Some TimeLimit.
+Proof. exact sw_alarm_route_timelimit. Qed.
+Print Assumptions C13_alarm_route_timelimit.
+
+Theorem C13_direct_route_native : forall st xs x,
+  sw_status (sw_runs Direct st (xs ++ [x])) = Some (run_native x).
+Proof. exact sw_direct_route_native. Qed.
+Print Assumptions C13_direct_route_native.
+
 (* ---------------------------------------------------------------- solved flag of a k-model *)
 Theorem C13_solved_only_optimal : forall c : kcfg, external c = false -> forall ops st,
   solved (fst (kruns c st ops)) = match last_solve ops with Some s => is_optimal s | None => solved st end.
@@ -287,6 +303,12 @@ Definition i_ := mkraw Infeasible false.
 Definition t_ := mkraw TimeLimit false.
 Definition u_ := mkraw Other false.
 Definition c_ := mkraw Optimal true.      (* HiGHS says optimal, but the custom time-out fired *)
+
+Example C13_wrapper_nonvacuous :
+  run_wrapper true [mkrun Optimal false; mkrun TimeLimit false; mkrun Optimal true; mkrun Infeasible false]
+    = [Some Optimal; Some TimeLimit; Some TimeLimit; Some Infeasible] /\
+  run_wrapper false [mkrun Optimal false; mkrun Other false; mkrun Optimal true] = [Some Optimal; Some Other; Some Optimal].
+Proof. vm_compute. split; reflexivity. Qed.
 
 (* the flag machine: solve-optimal gives data, a later timed-out solve clears the flag, the cached
    solution is still handed out by get_solution while get_objective_value raises *)
